@@ -346,7 +346,54 @@ def mixin_binding_case():
 
     class C(A):
         pass
-    for cls in (A, B, C):
+
+    class Falsy(A):
+        # an exported object may be a container that is currently empty: it is exported all the same
+        def __len__(self):
+            return 0
+    # the same member on two interfaces, one implementation per interface, the first of them under the conventional dbus_ name
+    ifa = interface.DBusInterface('org.verif.SameA', interface.Method('Same', returns='s'), noRegister=True)
+    ifb = interface.DBusInterface('org.verif.SameB', interface.Method('Same', returns='s'), noRegister=True)
+
+    class Two(objects.DBusObject):
+        dbusInterfaces = [ifa, ifb]
+
+        @objects.dbusMethod('org.verif.SameA', 'Same')
+        def dbus_Same(self):
+            return 'A'
+
+        @objects.dbusMethod('org.verif.SameB', 'Same')
+        def _same_b(self):
+            return 'B'
+    conn = Conn()
+    handler = objects.DBusObjectHandler(conn)
+    handler.exportObject(Two('/org/verif/Two'))
+    for iname, want in (('org.verif.SameA', 'A'), ('org.verif.SameB', 'B'), ('org.verif.SameA', 'A')):
+        del conn.sent[:]
+        p = message.parseMessage(message.MethodCallMessage('/org/verif/Two', 'Same', interface=iname).rawMessage, [])
+        p.sender = ':1.5'
+        handler.handleMethodCallMessage(p)
+        if len(conn.sent) != 1 or getattr(conn.sent[0], 'body', None) != [want]:
+            return 'a member declared on two interfaces with one implementation each (the first named dbus_Same and decorated for its interface): the call to %s.Same was answered %r, expected [%r]' % (
+                iname, [(type(r).__name__, getattr(r, 'error_name', None), r.body) for r in conn.sent], want)
+    # a call as another implementation writes it: a header field of an unknown code BEFORE the fields that address the call
+    from . import message_harness as MH
+    conn = Conn()
+    handler = objects.DBusObjectHandler(conn)
+    handler.exportObject(A('/org/verif/M'))
+    for le in (True, False):
+        del log[:]
+        del conn.sent[:]
+        raw = MH.ref_message(1, 0, 31, [(1, '/org/verif/M'), (2, 'org.verif.Mix'), (3, 'Mixed'), (6, 'org.verif.Dest'), (7, ':1.5'), (8, 's')], 's', ['y'], le,
+                             extra_fields=[(77, 's', 'ignore me')], extras_first=True)
+        try:
+            handler.handleMethodCallMessage(message.parseMessage(raw, []))
+        except Exception as e:
+            return 'a %s-endian call with an unknown header field before the known ones raised %s: %s' % ('little' if le else 'big', type(e).__name__, e)
+        if log != [('Mixed', 'y')] or len(conn.sent) != 1 or conn.sent[0].body != ['mixed:y'] or conn.sent[0].destination != ':1.5':
+            return 'a %s-endian call with an unknown header field before the known ones: implementation runs %r, replies %r' % (
+                'little' if le else 'big', log, [(type(r).__name__, getattr(r, 'error_name', None), r.destination, r.body) for r in conn.sent])
+    for cls in (A, B, C, Falsy):
         conn = Conn()
         handler = objects.DBusObjectHandler(conn)
         handler.exportObject(cls('/org/verif/M'))
